@@ -193,6 +193,9 @@ class Block:
             while isinstance(v, ast.Attribute):
                 v = v.value
             return isinstance(v, ast.Name) and v.id == 'self'
+        if isinstance(e, ast.Subscript) and isinstance(e.value, ast.Name) and isinstance(e.slice, ast.Constant) \
+                and isinstance(e.slice.value, int) and not isinstance(e.slice.value, bool):
+            return True                     # x[0]: one fixed element
         if isinstance(e, ast.Subscript) and isinstance(e.value, ast.Name) and self.loopvar is not None:
             i = e.slice
             if isinstance(i, ast.Name) and i.id == self.loopvar:
